@@ -265,7 +265,24 @@ def f2q(x):
     return [str(q.numerator), str(q.denominator)]
 
 
-def run(spec, order, min_conf, max_depth, upgrade_at=None, mine_at=None, refuse_first=False):
+def bystander_spec(spec):
+    """The same event type names defined differently: event types with concept relations lose them, the others get one."""
+    out = json.loads(json.dumps(spec))
+    for e in out['ets']:
+        if any(r['kind'] in ('intra', 'inter') for r in e['rels']):
+            e['rels'] = [r for r in e['rels'] if r['kind'] not in ('intra', 'inter')]
+        elif len(e['props']) >= 2:
+            a, b = e['props'][0], e['props'][1]
+            for p in (a, b):
+                if not p['assocs']:
+                    p['assocs'] = [{'concept': CONCEPTS[0], 'confidence': 5, 'cnp': 128}]
+            e['rels'] = e['rels'] + [{'kind': 'inter', 'source': a['name'], 'target': b['name'], 'confidence': 5,
+                                      'sc': a['assocs'][0]['concept'], 'tc': b['assocs'][0]['concept']}]
+        e['later'], e['later_prop'] = [], False
+    return out
+
+
+def run(spec, order, min_conf, max_depth, upgrade_at=None, mine_at=None, refuse_first=False, bystander=False):
     from edxml.miner.knowledge import KnowledgeBase
     from edxml.miner import Miner
     from edxml.miner.node import EventObjectNode
@@ -280,6 +297,15 @@ def run(spec, order, min_conf, max_depth, upgrade_at=None, mine_at=None, refuse_
     except Exception:
         # the generator produced something that is not a valid ontology (or upgrade) by itself: not a case
         return {'skipped': True}
+    other = None
+    if bystander:
+        # another miner in the same process, for another ontology that uses the same event type names, is given every event first:
+        # what one miner finds does not depend on what other miners are doing
+        try:
+            other = Miner(KnowledgeBase())
+            other.add_ontology(build_ontology(bystander_spec(spec)))
+        except Exception:
+            other = None
     kb = KnowledgeBase()
     m = Miner(kb)
     m.add_ontology(o)
@@ -311,6 +337,11 @@ def run(spec, order, min_conf, max_depth, upgrade_at=None, mine_at=None, refuse_
                 if mine_at is not None and k == mine_at:
                     # mining in between: more events arrive afterwards and everything is mined again
                     m.mine(None, min_conf, max_depth)
+                if other is not None:
+                    try:
+                        other.add_event(gen.build_event(spec['events'][order[k]], 'plain'))
+                    except Exception:
+                        pass
                 m.add_event(gen.build_event(ev, 'plain'))
             m.mine(None, min_conf, max_depth)
         outcome = 'ok'
@@ -378,7 +409,12 @@ def run(spec, order, min_conf, max_depth, upgrade_at=None, mine_at=None, refuse_
     return {'skipped': False, 'outcome': 'ok', 'instances': insts, 'taints': taints, 'uncovered': uncovered, 'json_same': json_same, 'titles_same': titles_same,
             'universals': uni, 'noisy_checks': noisy_checks, 'taint_checks': taint_checks, 'n_nodes': len(nodes),
             'passes': tracer.passes, 'picks': tracer.picks, 'trace_problem': tracer.problem,
-            'late_missing': sorted(v for v in late_values if not any(a['value'] == v for inst in insts for a in inst['attrs']))}
+            'late_missing': sorted(v for v in late_values if not any(a['value'] == v for inst in insts for a in inst['attrs'])),
+            # coverage, from the events themselves (not from the nodes the graph happens to hold): every object of a property that
+            # is associated with a concept
+            'missing_objects': sorted([ot, v] for ot, v in {(p['ot'], v) for ev in events for p in by_name[ev['type']]['props'] if p['assocs']
+                                                            for n, vs in ev['props'] if n == p['name'] for v in vs}
+                                      if not any(a['value'] == v and a['name'].split(':')[0] == ot for inst in insts for a in inst['attrs']))}
 
 
 class C20(Property):
@@ -450,6 +486,8 @@ class C20(Property):
                        for _ in range(rng.randint(2, 4))]
                 c = {'spec': {'ets': [et], 'events': evs}, 'order': list(range(len(evs))), 'min_conf': rng.choice(MIN_CONF),
                      'max_depth': rng.choice(MAX_DEPTH), 'upgrade_at': 1}
+            if i % 4 == 1:
+                c['bystander'] = True
             if i % 10 == 9:
                 # cases of their own for the known finding (titles after a JSON round trip), so that it cannot hide anything
                 c['title_probe'] = True
@@ -460,7 +498,7 @@ class C20(Property):
 
     def observe(self, case):
         r = run(case['spec'], case['order'], case['min_conf'], case['max_depth'], case.get('upgrade_at'), case.get('mine_at'),
-                case.get('refuse_first', False))
+                case.get('refuse_first', False), case.get('bystander', False))
         if r.get('skipped') or r.get('outcome') != 'ok':
             return r
         # what is compared with the model: the arithmetic on the real values (rounded) and the universals
@@ -585,6 +623,8 @@ class C20(Property):
                 return '%s: node %s has taint %s' % (what, nid, t)
         if r.get('late_missing') and case['min_conf'] <= 1.0:
             return '%s: objects of the concept-associated property that an ontology upgrade brought are in no instance: %s' % (what, r['late_missing'][:4])
+        if r.get('missing_objects') and case['min_conf'] <= 1.0:
+            return '%s: objects of concept-associated properties in no instance: %s' % (what, r['missing_objects'][:4])
         if r['uncovered'] and case['min_conf'] <= 1.0:
             return '%s: concept-associated event objects in no instance: %s' % (what, r['uncovered'][:4])
         if case.get('title_probe'):
